@@ -100,7 +100,7 @@ let dispatch (t : string list) : string option =
                sopt (derived_prepare menv bt t v); sopt (derived_prepare menv dq t v);
                hex_of_str (iden_prepare bt name); hex_of_str (iden_prepare dq name);
                (if ti.static then sopt (as_str menv t v) else "~");
-               dbg; hex_of_str (ty_ident t);
+               dbg; hex_of_str (unraw (ty_ident t));   (* std::any::type_name shows no r# *)
                (if has_fast_prepare t then "fast" else "general") ]))
   | ["snake"; h] -> Some (hex_of_str (snake_case (str_of_hex h)))
   | ["pascal"; h] -> Some (hex_of_str (pascal_case (str_of_hex h)))
